@@ -36,7 +36,7 @@ CHECKS.update({
  "C04": dict(
   category="exploration",
   technique="bounded exhaustive enumeration of operator grammars x precedence declarations x %prec markers; documented resolution rule applied to reference-LALR(1) cells; lock-step parse of all inputs",
-  text="(a) every subset (<=3) of operator rule shapes {E p E, E q E, p E, E p, E p E q E} over atom x x every assignment of x,p,q to {none, group 1, group 2} x every associativity per group x every %prec marker per rule, (b) every raw rule set of the tiny scope x every precedence declaration over its terminals: each lookahead-dependent cell of lalr.Compile's tables must equal the documented rule (rule precedence = %prec terminal else last terminal; higher wins; equal: left reduces, right shifts, nonassoc errors; undecided SR -> reported + shift; undecided RR -> reported + earlier rule) applied to the candidate actions of the reference LALR(1) automaton; SR/RR counts and error status exact; a reference LR parser driven by the documented resolutions is run in lock-step with the implementation tables on every input <= L (5 quick / 7 thorough).",
+  text="(a) every subset (<=3) of operator rule shapes {E p E, E q E, p E, E p, E p E q E} over atom x x every assignment of x,p,q to {none, group 1, group 2} x every associativity per group x every %prec marker per rule, (b) every raw rule set of the tiny scope x every precedence declaration over its terminals: each lookahead-dependent cell of lalr.Compile's tables must equal the documented rule (rule precedence = %prec terminal else last terminal; higher wins; equal: left reduces, right shifts, nonassoc errors; undecided SR -> reported + shift; undecided RR -> reported + earlier rule) applied to the candidate actions of the reference LALR(1) automaton; SR/RR counts and error status exact; a reference LR parser driven by the documented resolutions is run in lock-step with the implementation tables on every input <= L (5 quick / 7 thorough). Layer B: operator-family cases (80 quick / 3,000 thorough) are printed as .tm text with %left/%right/%nonassoc, %prec and %expect values taken from the documented rule, generated, built and run on every input <= 5: the generated parser's reduction sequence, verdict and error offset must equal the documented-resolution parser's.",
   note="Cells with a shift and several reductions (statement silent on how pairwise decisions combine) are only required to pick a candidate or error, and counts are not compared for grammars containing such a cell (counted in evidence).",
   design="§5.C04"),
  "C07": dict(
